@@ -3,7 +3,7 @@
 s=$1; shift
 wt=/tmp/wt-$s
 rm -rf $wt; git -C /repo worktree add --detach -q $wt HEAD
-if ! git -C $wt apply /verif/seeded/$s/patch.diff; then echo "PATCH DOES NOT APPLY"; git -C /repo worktree remove --force $wt; exit 3; fi
+if ! git -C $wt apply ${PATCH:-/verif/seeded/$s/patch.diff}; then echo "PATCH DOES NOT APPLY"; git -C /repo worktree remove --force $wt; exit 3; fi
 cd /verif
 for c in "$@"; do
   ev=$(mktemp -d /tmp/ev-XXXXXX)
